@@ -49,6 +49,7 @@ type Solver struct {
 	LastErr string
 	buf     strings.Builder
 	dead    bool
+	hardMs  int // a solver that has not answered this long after a check-sat was sent is killed (its own soft limit failed)
 }
 
 // NewSolver starts a solver. kind: "z3", "z3-new", "cvc5". timeoutMs is the per-query limit.
@@ -76,7 +77,7 @@ func NewSolver(kind string, timeoutMs int) (*Solver, error) {
 	if err := cmd.Start(); err != nil {
 		return nil, err
 	}
-	s := &Solver{Kind: kind, cmd: cmd, in: in, out: bufio.NewReaderSize(out, 1<<16), defined: map[int]bool{}}
+	s := &Solver{Kind: kind, cmd: cmd, in: in, out: bufio.NewReaderSize(out, 1<<16), defined: map[int]bool{}, hardMs: 5*timeoutMs + 30000}
 	s.send("(set-option :global-declarations true)\n")
 	if kind != "cvc5" {
 		s.send("(set-option :produce-models true)\n")
@@ -192,6 +193,17 @@ func (s *Solver) Check() SatResult {
 	}
 	t0 := time.Now()
 	s.send("(check-sat)\n")
+	// watchdog: the per-query limit is the solver's own; if it does not honour it (parsing a huge formula, a
+	// blocked pipe) the process is killed, the answer is "unknown" and the worker starts a new solver
+	done := make(chan struct{})
+	go func(cmd *exec.Cmd, ms int) {
+		select {
+		case <-done:
+		case <-time.After(time.Duration(ms) * time.Millisecond):
+			cmd.Process.Kill()
+		}
+	}(s.cmd, s.hardMs)
+	defer close(done)
 	s.flush()
 	s.Queries++
 	res := Unknown
